@@ -70,16 +70,13 @@ func Slice[T any](ord fp.Ord[T]) fp.Ord[[]T] {
 var HNil fp.Ord[hlist.Nil] = New(fp.EqGiven[hlist.Nil](), func(a, b hlist.Nil) bool { return false })
 
 func HCons[H any, T hlist.HList](heq fp.Ord[H], teq fp.Ord[T]) fp.Ord[hlist.Cons[H, T]] {
-	return New(eq.HCons[H, T](heq, teq), func(a, b hlist.Cons[H, T]) bool {
-		if heq.Less(a.Head(), b.Head()) {
-			return true
+	// compare the heads once and descend only on a tie: asking the tail for Eqv and then
+	// for Less compares the whole tail twice at every level, which is exponential in the length
+	return FromCompare(func(a, b hlist.Cons[H, T]) int {
+		if c := heq.Compare(a.Head(), b.Head()); c != 0 {
+			return c
 		}
-
-		if heq.Less(b.Head(), a.Head()) {
-			return false
-		}
-
-		return teq.Less(hlist.Tail(a), hlist.Tail(b))
+		return teq.Compare(hlist.Tail(a), hlist.Tail(b))
 	})
 }
 
@@ -123,7 +120,6 @@ var _ = genfp.GenerateFromUntil{
 	File: "tuple_gen.go",
 	Imports: []genfp.ImportPackage{
 		{Package: "github.com/csgura/fp", Name: "fp"},
-		{Package: "github.com/csgura/fp/eq", Name: "eq"},
 		{Package: "github.com/csgura/fp/as", Name: "as"},
 	},
 	From:  2,
@@ -133,17 +129,12 @@ func Tuple{{.N}}[{{TypeArgs 1 .N}} any]( {{DeclTypeClassArgs 1 .N "fp.Ord"}} ) f
 
 	pt := Tuple{{dec .N}}({{CallArgs 2 .N "ins"}})
 
-	return New( eq.New( func( a, b fp.{{TupleType .N}} ) bool {
-		return ins1.Eqv(a.Head(),b.Head()) && pt.Eqv(as.Tuple{{dec .N}}(a.Tail()), as.Tuple{{dec .N}}(b.Tail()))
-	}), fp.LessFunc[fp.{{TupleType .N}}](func(t1 , t2 fp.{{TupleType .N}}) bool {
-		if ins1.Less(t1.I1, t2.I1) {
-			return true
+	return FromCompare(func(t1 , t2 fp.{{TupleType .N}}) int {
+		if c := ins1.Compare(t1.I1, t2.I1); c != 0 {
+			return c
 		}
-		if ins1.Less(t2.I1, t1.I1) {
-			return false
-		}
-		return pt.Less(as.Tuple{{dec .N}}(t1.Tail()), as.Tuple{{dec .N}}(t2.Tail()))
-	}))
+		return pt.Compare(as.Tuple{{dec .N}}(t1.Tail()), as.Tuple{{dec .N}}(t2.Tail()))
+	})
 }
 	`,
 }
